@@ -524,16 +524,16 @@ func run(c *Ctx) {
 				cases = append(cases, &tcase{op: "raw", raw: []rawFrame{f}})
 			}
 		}
-		nr := c.Budget(2500, 15000)
+		nr := c.Budget(2500, 80000)
 		for i := 0; i < nr; i++ {
 			cases = append(cases, genRawCase(c, c.Thorough() && i%100 == 0 || i%500 == 0))
 		}
-		na := c.Budget(2500, 15000)
+		na := c.Budget(2500, 80000)
 		for i := 0; i < na; i++ {
 			cases = append(cases, genAvCase(c, c.Thorough() && i%100 == 0 || i%500 == 0))
 		}
 		// header builders alone: every profile/index/channel byte pattern of interest × sizes
-		nh := c.Budget(3000, 20000)
+		nh := c.Budget(3000, 100000)
 		for i := 0; i < nh; i++ {
 			sz := c.Rng.Intn(9000)
 			if c.Rng.Chance(30) {
